@@ -493,6 +493,12 @@ func (g *opGen) drawOp(t *rapid.T, u *storeUnderTest) sop {
 	switch kind {
 	case "simple":
 		return g.drawSimple(t, total)
+	case "burst":
+		b := g.burst(t)
+		if !g.bud.Fits(total + float64(len(b))) {
+			return sop{Kind: "addw", Index: g.index(t), W: 0}
+		}
+		return sop{Kind: "burst", Burst: b}
 	case "merge":
 		ak := gen.AnyKind().Draw(t, "argkind")
 		if rapid.IntRange(0, 2).Draw(t, "samekind") == 0 {
